@@ -1,6 +1,7 @@
 package sim
 
 import (
+	"strconv"
 	"database/sql"
 	"flag"
 	"fmt"
@@ -150,6 +151,8 @@ type ATCfg struct {
 	DataValidation bool   `json:"data_validation"`
 	OnlyUpdateCols bool   `json:"only_care_update_columns"`
 	ServerVersion  string `json:"server_version"`
+	// AutoIncStep: the server's auto_increment_increment (0/1 = default)
+	AutoIncStep    int    `json:"auto_inc_step,omitempty"`
 	BufferLimit    int    `json:"buffer_limit"`
 	CleanMs        int    `json:"clean_ms"`
 	RecvChan       int    `json:"recv_chan"`
@@ -159,6 +162,13 @@ type ATCfg struct {
 	LockRetryTimes int    `json:"lock_retry_times"`
 }
 
+// applyServerCfg sets the server variables of the run on a database model.
+func applyServerCfg(srv *simdb.Server, cfg ATCfg) {
+	if cfg.AutoIncStep > 1 {
+		srv.Vars["auto_increment_increment"] = strconv.Itoa(cfg.AutoIncStep)
+	}
+}
+
 func defaultATCfg() ATCfg {
 	return ATCfg{Serializer: "json", Compress: "None", DataValidation: true, OnlyUpdateCols: false, ServerVersion: "8.0.30",
 		BufferLimit: 100, CleanMs: 1000, RecvChan: 100, Workers: 2, WorkerBuf: 16, LockRetryMs: 10, LockRetryTimes: 3}
@@ -166,6 +176,10 @@ func defaultATCfg() ATCfg {
 
 func genATCfg(g *simkit.Gen, swarm bool) ATCfg {
 	c := defaultATCfg()
+	if g.Prob(0.25) {
+		// multi-master set-ups: generated keys advance by more than one
+		c.AutoIncStep = simkit.Pick(g, []int{2, 3, 10})
+	}
 	if !swarm {
 		return c
 	}
@@ -218,6 +232,7 @@ func bootAT(seed uint64, tape *simkit.Tape, cfg ATCfg, ncfg simnet.Config) *ATWo
 	}
 	datasource.Init()
 	srv := simdb.NewServer("simdb1", cfg.ServerVersion)
+	applyServerCfg(srv, cfg)
 	srv.LockWaitTimeout = 5 * time.Second
 	hook := newDBHook(w.Sim)
 	srv.Hook = hook
